@@ -4,6 +4,7 @@ tier=${1:-quick}
 out=/tmp/runall_$tier.txt
 : > $out
 cd /verif
+if [ "$tier" = thorough ]; then VERIF_EVIDENCE_DIR=/verif/evidence_thorough; export VERIF_EVIDENCE_DIR; fi
 for p in C01 C02 C03 C04 C05 C06 C07 C08 C09 C10 C11 C12 C13 C14 C15 C16 C17 C18 C19; do
   s=$(date +%s)
   ./vcheck $p --tier $tier > /tmp/runall_$p.out 2> /tmp/runall_$p.err
